@@ -81,7 +81,7 @@ HashObserved(e) ==
              /\ Class(e.want256) = "supported" /\ NameOf(e.want256) = SHA256),
    matches |-> e.matches]
 
-Diffs(e) == CASE e.ev = "str"  -> <<"str", ClassTag(e.s), StrDiffs(e)>>
+Diffs(e) == CASE e.ev = "str"  -> <<"str", HashTag(e.s), StrDiffs(e)>>
               [] e.ev = "pair" -> <<"pair", PairTag(e), PairDiffs(e)>>
               [] e.ev = "hash" -> <<"hash", "content", DiffFields(HashExpected, HashObserved(e))>>
               [] OTHER         -> <<e.ev, "unexpected-line", {<<"line", "-", "str|pair|hash", e.ev>>}>>
